@@ -1049,9 +1049,9 @@ var expectRefused bool
 
 const frontMaxBytes = 1500
 // the scanner model is quadratic in the length of the text: the deep-value texts that the front tie
-// runs on are bounded at 2200 bytes in the quick tier (lists to 1001 levels, the other kinds to
-// 500 / 333 / 250), 6000 in the thorough tier
-const frontMaxBytesDeep = 2200
+// runs on are bounded at 1200 bytes in the quick tier (lists to 501 levels, the other kinds to
+// 251 / 250 / 100), 6000 in the thorough tier
+const frontMaxBytesDeep = 1200
 const frontMaxBytesDeepThorough = 6000
 
 var thoroughTier bool
@@ -1223,6 +1223,11 @@ func main() {
 		for _, k := range []string{"sel", "list", "obj", "type", "wide", "wideargs", "inline", "unclosed", "unclosedlist"} {
 			for _, n := range depths {
 				k, n := k, n
+				if k == "wide" && n == 5000 && !h.Thorough() {
+					// quick tier: the widest document of this family has 1500 fields (about 0.2 s per
+					// validation, three validations per case); 5000 (2 s each) and more: thorough tier
+					continue
+				}
 				if k == "wide" && n > 20000 {
 					// n fields of one response name: FieldsInSetCanMerge compares them pairwise
 					// (quadratic; the polynomial bound is property C12): 5000 take about 2 s,
@@ -1246,13 +1251,21 @@ func main() {
 		}
 		// the same ladder through ParseAndValidate WITH the cost rule (what API.ServeGraphQL always
 		// does): the rule walks the expansion, 2^n fields for n fragments — n = 22 (1 KB of text) takes
-		// about 3.5 s, every two more levels four times as long.  22 levels must be done within 2 s
-		// (the goroutine the watchdog abandons ends soon after)
-		for _, n := range []int{2, 10, 16, 22} {
+		// about 3.5 s, every two more levels four times as long.
+		// quick tier: 2, 10, 16 levels under the ordinary watchdog (16 levels take about 60 ms: no
+		// wall-clock margin is involved); the case that shows the known finding as a timeout — 24
+		// levels, about 13 s on an idle machine, asked for within 5 s — runs in the thorough tier only
+		ladderCost := []int{2, 10, 16}
+		if h.Thorough() {
+			ladderCost = append(ladderCost, 24)
+		}
+		for _, n := range ladderCost {
 			n := n
 			h.Case(func(*rng.R) sexp.Node {
-				watchdog = 2 * time.Second
-				defer func() { watchdog = 20 * time.Second }()
+				if n > 16 {
+					watchdog = 5 * time.Second
+					defer func() { watchdog = 20 * time.Second }()
+				}
 				return emit("deep-ladder-cost", "validate", deep("ladder", n), `{}`, "", 0, 0)
 			})
 		}
@@ -1287,7 +1300,7 @@ func main() {
 			h.Case(func(*rng.R) sexp.Node { return emit("opname", "subscribe", `query A{i} subscription B{sub}`, `{}`, op, 0, 0) })
 		}
 		// 6. random: token-level mutations, raw bytes, random variables
-		n := 9000
+		n := 5400
 		if h.Thorough() {
 			n = 200000
 		}
